@@ -166,7 +166,18 @@ fn permutations(n: usize) -> Vec<Vec<usize>> {
 
 pub fn generate(rng: &mut Rng, tier: &str) -> Case {
     let template = *rng.pick(catalogue::TEMPLATES);
-    let mut program = catalogue::instantiate(template, rng);
+    let mut program = if rng.chance(2, 5) {
+        // a seeded random program (DAG of entities spread over files and modules), sometimes with an injected error
+        let inject = match rng.below(8) {
+            0 => 1,
+            1 => 2,
+            2 => 3,
+            _ => 0,
+        };
+        catalogue::random_program(rng, inject)
+    } else {
+        catalogue::instantiate(template, rng)
+    };
     // composite programs: two templates side by side (their modules differ), at most 4 files kept in total so that
     // all permutations stay affordable; state that leaks from one file's processing into another's has more to hit
     if rng.chance(1, 3) && program.files.len() <= 3 {
